@@ -4,7 +4,8 @@
    order, send never blocks), C15, C18 (per-peer send queue, receive queue), C03 (clone per peer). *)
 EXTENDS Naturals, Sequences, FiniteSets, TLC, Json
 
-CONSTANTS Raw, Pipes, MaxMsgs, MaxOps, MaxCap
+CONSTANTS Raw, Pipes, MaxMsgs, MaxOps, MaxCap,
+          NbSend     \* TRUE: sends use the non-blocking form; FALSE: the aio form (completes at once; the callback is reported)
 
 VARIABLES
   att, used,            \* attached peers in attach order
@@ -35,7 +36,7 @@ Connect(p) ==
 \* bus0_sock_send: a clone to every attached peer except (raw mode) the one named by the header; a peer whose
 \* queue is full misses the whole message; the call always succeeds at once
 Send(skip) ==
-  /\ nextMsg <= 100 + MaxMsgs
+  /\ nextMsg <= 100 + MaxMsgs /\ (NbSend \/ NOps < MaxOps)
   /\ (skip # 0 => (Raw /\ skip \in SeqSet(att)))
   /\ LET m == nextMsg
          A == SeqSet(att) \ {skip}
@@ -43,10 +44,16 @@ Send(skip) ==
         /\ sq' = [p \in Pipes |-> IF p \in A /\ wire[p] # <<>> /\ Len(sq[p]) < qcap[p] THEN Append(sq[p], m) ELSE sq[p]]
         /\ dropped' = [p \in Pipes |-> IF p \in A /\ wire[p] # <<>> /\ Len(sq[p]) >= qcap[p] THEN dropped[p] \cup {m} ELSE dropped[p]]
         /\ sent' = [p \in Pipes |-> IF p \in A THEN Append(sent[p], m) ELSE sent[p]]
-        /\ lastAct' = IF skip = 0 THEN [a |-> "send", mode |-> "nb", op |-> 0, m |-> m, out |-> [rv |-> "ok", done |-> <<>>]]
-                                  ELSE [a |-> "send", mode |-> "nb", op |-> 0, m |-> m, hdrp |-> <<skip>>, out |-> [rv |-> "ok", done |-> <<>>]]
-  /\ nextMsg' = nextMsg + 1 /\ doneV' = <<>>
-  /\ UNCHANGED <<att, used, qcap, sendbuf, rq, rcap, rwait, readable, ops, taken, arrived, got>>
+        /\ LET k == NOps + 1
+               base == IF NbSend THEN [a |-> "send", mode |-> "nb", op |-> 0, m |-> m, out |-> [rv |-> "ok", done |-> <<>>]]
+                                 ELSE [a |-> "send", mode |-> "aio", op |-> k, m |-> m, out |-> [done |-> <<>>]]
+           IN /\ lastAct' = IF skip = 0 THEN base
+                            ELSE IF NbSend THEN [a |-> "send", mode |-> "nb", op |-> 0, m |-> m, hdrp |-> <<skip>>, out |-> [rv |-> "ok", done |-> <<>>]]
+                            ELSE [a |-> "send", mode |-> "aio", op |-> k, m |-> m, hdrp |-> <<skip>>, out |-> [done |-> <<>>]]
+              /\ ops' = IF NbSend THEN ops ELSE Append(ops, "done")
+              /\ doneV' = IF NbSend THEN <<>> ELSE <<[op |-> k, rv |-> "ok"]>>
+  /\ nextMsg' = nextMsg + 1
+  /\ UNCHANGED <<att, used, qcap, sendbuf, rq, rcap, rwait, readable, taken, arrived, got>>
 Take(p) ==
   /\ p \in SeqSet(att) /\ wire[p] # <<>>
   /\ taken' = [taken EXCEPT ![p] = Append(@, Head(wire[p]))]
@@ -82,7 +89,7 @@ RecvNb ==
   /\ doneV' = <<>>
   /\ UNCHANGED <<att, used, wire, sq, qcap, sendbuf, rcap, rwait, ops, nextMsg, sent, taken, dropped, arrived>>
 RecvAio ==
-  /\ NOps < MaxOps
+  /\ NOps < MaxOps /\ rwait = <<>>
   /\ LET k == NOps + 1 IN
      /\ lastAct' = [a |-> "recv", mode |-> "aio", op |-> k, out |-> [done |-> <<>>]]
      /\ IF rq = <<>> THEN
